@@ -44,7 +44,8 @@ def history(ctx, fedjax, rng, nrounds, window, nclusters, allow_empty_domain):
   offs = [0.0, 2.0, -2.0][:nclusters]
   agn, agn_init, _ = algs.build(fedjax, 'agnostic_fed_avg', case, window=window, domain_lr=rng.choice([0.125, 0.5]), init_window=[1.0, 1.0])
   apfl, apfl_init, _ = algs.build(fedjax, 'apfl', case, coef=rng.choice([0.0, 0.5, 1.0]), copt=fedjax.optimizers.sgd(rng.choice([0.25, 1.0, 4.0])))
-  hyp, hyp_init, _ = algs.build(fedjax, 'hyp_cluster', case, clusters=nclusters, offsets=offs)
+  # (a server optimizer with a step counter: an applied update is visible in the state even when the mean delta is zero)
+  hyp, hyp_init, _ = algs.build(fedjax, 'hyp_cluster', case, clusters=nclusters, offsets=offs, sopt=fedjax.optimizers.adam(0.125))
   p0 = island.params_tree(inst['init'])
   s_agn, s_apfl, s_hyp = agn_init(p0), apfl_init(p0), hyp_init(p0)
   events = []
